@@ -7,6 +7,7 @@ package main
 
 import (
 	"fmt"
+	"sort"
 	"go/ast"
 	"go/token"
 	"strings"
@@ -176,6 +177,15 @@ func (c *ctx) session5Facts() {
 		fmt.Fprintf(&c.lean, "/-- `%s.%s`: [id, converters, skip-verify] of its NewChunkFromStorage call, then every non-nil way a chunk leaves the function -/\n", b.recv, b.fn)
 		c.emitShape("ctor_"+b.name, "ctor"+b.name, sh, fd != nil && found)
 	}
+	// wrappers: where the chunk a wrapper returns comes from
+	c.lean.WriteString("\n/-! store wrappers: provenance of the chunk each GetChunk returns (C03) -/\n")
+	for _, w := range []struct{ recv, name string }{{"Cache", "Cache"}, {"RepairableCache", "RepairableCache"}, {"StoreRouter", "Router"},
+		{"FailoverGroup", "Failover"}, {"DedupQueue", "Dedup"}, {"WriteDedupQueue", "WriteDedup"}, {"SwapStore", "Swap"}} {
+		fd := c.funcDecl(c.files, w.recv, "GetChunk")
+		fmt.Fprintf(&c.lean, "/-- `%s.GetChunk`: every non-nil chunk it returns is one a member returned for the requested ID (or the result published for it) -/\n", w.recv)
+		c.emitShape("prov_"+w.name, "prov"+w.name, chunkProvenance(fd), fd != nil)
+	}
+
 	// the HTTP handler's upload path verifies through the same constructor
 	fd := c.funcDecl(c.files, "HTTPHandler", "put")
 	sh, found := c.ctorShape(fd)
@@ -619,4 +629,102 @@ func (c *ctx) cmdServers() {
 		}
 		c.emitShape("shape_"+d.name, d.name, sh, found)
 	}
+}
+
+// chunkProvenance lists, sorted and without duplicates, where the first result of every return statement of fd comes
+// from: "member.GetChunk(id)" for the result of a GetChunk call with the function's own ID parameter, "wait()" for the
+// published result of an in-flight request, otherwise the expression as written
+func chunkProvenance(fd *ast.FuncDecl) []string {
+	if fd == nil {
+		return nil
+	}
+	idParam := paramOfType(fd, "ChunkID")
+	norm := func(e ast.Expr) string {
+		if call, ok := e.(*ast.CallExpr); ok {
+			fn := exprString(call.Fun)
+			switch {
+			case strings.HasSuffix(fn, ".GetChunk") && len(call.Args) == 1:
+				a := exprString(call.Args[0])
+				if a == idParam && idParam != "" {
+					a = "id"
+				}
+				return "member.GetChunk(" + a + ")"
+			case strings.HasSuffix(fn, ".wait"):
+				return "wait()"
+			}
+			return "call:" + fn
+		}
+		return exprString(e)
+	}
+	// sources of each identifier (position 0 of an assignment / type-switch binding)
+	src := map[string][]string{}
+	walk(fd.Body, func(n ast.Node) bool {
+		switch t := n.(type) {
+		case *ast.AssignStmt:
+			if ta, ok := t.Rhs[0].(*ast.TypeAssertExpr); ok && ta.Type == nil {
+				return true // the binding of a type switch: handled below
+			}
+			if len(t.Lhs) >= 1 && len(t.Rhs) == 1 {
+				if id, ok := t.Lhs[0].(*ast.Ident); ok {
+					src[id.Name] = append(src[id.Name], norm(t.Rhs[0]))
+				}
+			}
+		case *ast.TypeSwitchStmt:
+			if as, ok := t.Assign.(*ast.AssignStmt); ok && len(as.Lhs) == 1 && len(as.Rhs) == 1 {
+				if ta, ok := as.Rhs[0].(*ast.TypeAssertExpr); ok {
+					if id, ok := as.Lhs[0].(*ast.Ident); ok {
+						src[id.Name] = append(src[id.Name], "typeswitch:"+exprString(ta.X))
+					}
+				}
+			}
+		}
+		return true
+	})
+	var resolve func(name string, depth int) []string
+	resolve = func(name string, depth int) []string {
+		ss, ok := src[name]
+		if !ok || depth > 4 {
+			return []string{name}
+		}
+		var out []string
+		for _, s := range ss {
+			if strings.HasPrefix(s, "typeswitch:") {
+				out = append(out, resolve(strings.TrimPrefix(s, "typeswitch:"), depth+1)...)
+			} else {
+				out = append(out, s)
+			}
+		}
+		return out
+	}
+	seen := map[string]bool{}
+	var out []string
+	add := func(s string) {
+		if !seen[s] {
+			seen[s] = true
+			out = append(out, s)
+		}
+	}
+	walk(fd.Body, func(n ast.Node) bool {
+		if _, ok := n.(*ast.FuncLit); ok {
+			return false
+		}
+		r, ok := n.(*ast.ReturnStmt)
+		if !ok || len(r.Results) == 0 {
+			return true
+		}
+		switch e := r.Results[0].(type) {
+		case *ast.Ident:
+			if e.Name == "nil" {
+				return true
+			}
+			for _, s := range resolve(e.Name, 0) {
+				add(s)
+			}
+		default:
+			add(norm(e))
+		}
+		return true
+	})
+	sort.Strings(out)
+	return out
 }
